@@ -79,7 +79,8 @@ def run(pid, tier, seed):
         "sample_queries": d["samples"][:4],
     }
     if d["n_violations"]:
-        first = d["violations"][0].split("|")
+        with_file = [v for v in d["violations"] if v.split("|")[0]]
+        first = (with_file or d["violations"])[0].split("|")
         rec["status"] = "violation"
         rec["note"] = "%d layouts violate; first: %s" % (d["n_violations"], first[1] if len(first) > 1 else "")
         rec["replay"] = {"path": first[0], "labels": [first[1] if len(first) > 1 else "sv"]}
